@@ -315,6 +315,8 @@ func runC11Visit(c *Ctx) {
 					m.Bool[key] = false
 				} else if strings.HasPrefix(k, "bool ") && strings.Contains(key, "==nil") {
 					m.Bool[key] = true
+				} else if strings.HasPrefix(k, "bool ") && (strings.HasPrefix(key, extName(rec)+"(") || strings.HasPrefix(key, "recurse(")) {
+					m.Bool[key] = true // a visit that reports "keep going" as a flag
 				}
 			}
 		}
